@@ -55,6 +55,15 @@ def run(tier: str) -> int:
         judge_total(rep, t, obs, counts)
     rep.sample({"text": texts[7], "class": "see counts"})
 
+    # long chains, deep nesting, numbers beyond 32 bits / beyond Python's conversion limit, lone surrogates, loaded under
+    # CPython's DEFAULT recursion limit
+    stress = F.stress_texts()
+    futs = [pool.apply_async(F.observe_many_default_limits, (stress[i : i + 8],)) for i in range(0, len(stress), 8)]
+    for t, obs in zip(stress, [o for f in futs for o in f.get(timeout=3600)]):
+        rep.evaluations += 1
+        judge_total(rep, t, obs, counts)
+    rep.extra["stress_texts"] = len(stress)
+
     # all short strings, TLC-enumerated (with the recogniser's verdict for the record)
     n = 3 if not thorough else 4
     cfg = write_cfg("MetaShort11", "Spec", {"N": n, "Alphabet": "{" + ", ".join(str(ord(c)) for c in SHORT_ALPHABET) + "}"}, invariants=["Emit"])
